@@ -109,7 +109,28 @@ def nd(rng, ids):
     arr = np.array(vals, dtype=dtype)
     if shape == [] and rng.random() < 0.5:
         return ["VNd", ids.new(), "numpy" + np.dtype(dtype).type.__name__, dtype, [], arr.tobytes().hex()]
-    return ["VNd", ids.new(), "numpyndarray", dtype, shape, arr.tobytes().hex()]
+    t = ["VNd", ids.new(), "numpyndarray", dtype, shape, arr.tobytes().hex()]
+    if len(shape) >= 1 and rng.random() < 0.4:
+        t.append(rng.choice(["F", "T", "S", "ST", "N"]))      # memory layout: not part of the value
+    return t
+
+
+def nd_layouts(rng, ids):
+    """one array with at least 2 dimensions and distinct entries, in every memory layout"""
+    import numpy as np
+    dtype = rng.choice(["float64", "int64", "int32", "float32", "uint8"])
+    shape = rng.choice([[2, 3], [3, 2], [3, 4], [2, 2, 3], [4, 1, 2], [1, 5], [5, 1], [2, 3, 2]])
+    n = 1
+    for s in shape:
+        n *= s
+    arr = (np.arange(n) + rng.randrange(5)).astype(dtype)
+    base = ["VNd", 0, "numpyndarray", dtype, shape, arr.tobytes().hex()]
+    out = []
+    for lay in ["C", "F", "T", "S", "ST", "N"]:
+        t = list(base) + [lay]
+        t[1] = ids.new()
+        out.append(t)
+    return out
 
 
 BIG_NBYTES = [8192 - 8, 8192, 8192 + 8, 2 * 8192 - 16, 2 * 8192, 2 * 8192 + 8, 3 * 8192 + 4096, 80000, 10 * 8192 + 24]
@@ -186,7 +207,7 @@ def hashable(t):
 
 
 # ------------------------------------------------------------------ one-step mutations
-MUTATIONS = ["copy", "retag", "regroup", "scalar_type", "scalar_value", "permute", "array",
+MUTATIONS = ["copy", "layout", "retag", "regroup", "scalar_type", "scalar_value", "permute", "array",
              "drop", "attr_name", "cls_name"]
 
 
@@ -225,6 +246,17 @@ def mutate(rng, t, ids):
     for m in rng.sample(MUTATIONS, len(MUTATIONS)):
         ns = nodes(t2)
         if m == "copy":
+            return m, t2
+        if m == "layout":
+            # the same array in another memory layout: the value is unchanged
+            c = [x for x in ns if x[0] == "VNd" and x[2] == "numpyndarray" and len(x[4]) >= 1]
+            if not c:
+                continue
+            x = rng.choice(c)
+            cur = x[6] if len(x) > 6 else "C"
+            new = rng.choice([l for l in ["C", "F", "T", "S", "ST", "N"] if l != cur])
+            del x[6:]
+            x.append(new)
             return m, t2
         if m == "retag":
             c = [x for x in ns if x[0] in ("VList", "VTuple", "VSet", "VFrozenset")]
